@@ -196,6 +196,8 @@ fn run_packets(pk: &mut Pk, stream: &[u8], cuts: &[usize], with_handshake: bool)
     if pk.episodes % 3 == 1 {
         s.vary_ip.set(pk.episodes as u64 | 1);
     }
+    // Ethernet minimum-frame padding (tiny segments) and a captured FCS after the IP datagram
+    s.eth_trailer = [0u8, 0, 1, 2][(pk.episodes % 4) as usize];
     s.c_stream(stream, cuts);
     let tls = &mut pk.tls;
     let t0 = std::time::Instant::now();
@@ -261,6 +263,7 @@ fn run_workers(wp: &Wp, pk: &mut Pk, stream: &[u8], cuts: &[usize], with_handsha
         // segments of one connection may carry different IPv6 flow labels / IPv4 ids
         s.vary_ip.set(pk.episodes as u64 | 1);
     }
+    s.eth_trailer = [0u8, 1, 0, 2][(pk.episodes % 4) as usize];
     s.c_stream(stream, cuts);
     crate::pool::reset_log(0, 0);
     let crate::pool::Handle::Tls(_, rx) = &wp.h else {
